@@ -1,8 +1,14 @@
 package handler
 
-// C01 — HTTP integration: responses with a status below 500 (or no explicit
-// status at all) are benign for BreakerHandler's breaker; a handler that keeps
-// answering >= 500 is cut off with 503 without being run.
+// C01 — HTTP integration. Every (method, path) pair wrapped by BreakerHandler is
+// its own breaker. A case drives 1..4 pairs, each with its own script,
+// interleaved in generated chunks:
+//   benign  statuses below 500 (or no explicit status), plus at most five
+//           statuses >= 500: never answered 503 by the breaker, whatever the
+//           other routes do;
+//   failing >= 200 responses of one status >= 500 (incl. exactly 500): cut off
+//           with 503, without running the handler, at least once;
+//   mixed   arbitrary statuses (background load; only pass-through is judged).
 
 import (
 	"fmt"
@@ -20,85 +26,144 @@ import (
 
 func init() { logx.Disable() }
 
+type c01HStep struct {
+	N int `json:"n"` // route index
+	C int `json:"c"` // status written by the handler; 0 = body without WriteHeader
+}
+
 type c01HCase struct {
-	Benign bool  `json:"benign"`
-	Codes  []int `json:"codes"` // 0 = handler writes a body without WriteHeader
-	Skew   int64 `json:"skew,omitempty"`
+	K     int        `json:"k"`    // routes: index i = method i%2 (GET, POST), path i/2
+	Kind  []int      `json:"kind"` // per route: 0 benign, 1 failing, 2 mixed
+	Steps []c01HStep `json:"steps"`
+	Skew  int64      `json:"skew,omitempty"`
+}
+
+func c01HInterleave(rt *rapid.T, scripts [][]int) []c01HStep {
+	pos := make([]int, len(scripts))
+	var steps []c01HStep
+	for {
+		var active []int
+		for n := range scripts {
+			if pos[n] < len(scripts[n]) {
+				active = append(active, n)
+			}
+		}
+		if len(active) == 0 {
+			return steps
+		}
+		n := rapid.SampledFrom(active).Draw(rt, "route")
+		chunk := rapid.SampledFrom([]int{1, 1, 2, 5, 20, 100, 400}).Draw(rt, "chunk")
+		for ; chunk > 0 && pos[n] < len(scripts[n]); chunk-- {
+			steps = append(steps, c01HStep{N: n, C: scripts[n][pos[n]]})
+			pos[n]++
+		}
+	}
 }
 
 func c01GenHTTP(rt *rapid.T) c01HCase {
-	c := c01HCase{Benign: rapid.IntRange(0, 3).Draw(rt, "benign") != 0}
+	c := c01HCase{K: rapid.IntRange(1, 4).Draw(rt, "k")}
 	c.Skew = rapid.Int64Range(0, 1_000_000_000).Draw(rt, "skew")
-	n := rapid.IntRange(200, 320).Draw(rt, "n")
 	benign := rapid.OneOf(rapid.SampledFrom([]int{0, 200, 204, 301, 400, 401, 404, 429, 498, 499, 499}), rapid.IntRange(100, 499))
 	failing := rapid.OneOf(rapid.SampledFrom([]int{500, 500, 500, 501, 502, 503, 504, 599}), rapid.IntRange(500, 599))
-	if c.Benign {
-		single := rapid.Bool().Draw(rt, "single")
-		the := benign.Draw(rt, "the")
-		for i := 0; i < n; i++ {
-			if single {
-				c.Codes = append(c.Codes, the)
-			} else {
-				c.Codes = append(c.Codes, benign.Draw(rt, "code"))
+	var scripts [][]int
+	for n := 0; n < c.K; n++ {
+		kind := rapid.SampledFrom([]int{0, 0, 1, 1, 2}).Draw(rt, "kind")
+		c.Kind = append(c.Kind, kind)
+		var s []int
+		switch kind {
+		case 0:
+			ln := rapid.IntRange(200, 300).Draw(rt, "n")
+			single := rapid.Bool().Draw(rt, "single")
+			the := benign.Draw(rt, "the")
+			for i := 0; i < ln; i++ {
+				if single {
+					s = append(s, the)
+				} else {
+					s = append(s, benign.Draw(rt, "code"))
+				}
+			}
+			nf := rapid.IntRange(0, 5).Draw(rt, "nfail")
+			for i := 0; i < nf; i++ {
+				s[rapid.IntRange(0, ln-1).Draw(rt, "pos")] = failing.Draw(rt, "f")
+			}
+		case 1:
+			ln := rapid.IntRange(200, 300).Draw(rt, "n")
+			the := failing.Draw(rt, "the")
+			for i := 0; i < ln; i++ {
+				s = append(s, the)
+			}
+		default:
+			ln := rapid.IntRange(20, 200).Draw(rt, "n")
+			for i := 0; i < ln; i++ {
+				if rapid.Bool().Draw(rt, "bad") {
+					s = append(s, failing.Draw(rt, "code"))
+				} else {
+					s = append(s, benign.Draw(rt, "code"))
+				}
 			}
 		}
-		nf := rapid.IntRange(0, 5).Draw(rt, "nfail")
-		for i := 0; i < nf; i++ {
-			c.Codes[rapid.IntRange(0, n-1).Draw(rt, "pos")] = failing.Draw(rt, "f")
-		}
-	} else {
-		the := failing.Draw(rt, "the")
-		for i := 0; i < n; i++ {
-			c.Codes = append(c.Codes, the)
-		}
+		scripts = append(scripts, s)
 	}
+	c.Steps = c01HInterleave(rt, scripts)
 	return c
 }
 
 func c01InterpHTTP(t *testing.T, c c01HCase) (v kit.Verdict) {
 	var fail string
-	rejected, nfail := 0, 0
+	rejected := make([]int, c.K)
+	nfail := make([]int, c.K)
+	calls := make([]int, c.K)
 	classes := map[string]bool{}
 	res := kit.Bubble(t, func() {
 		if c.Skew > 0 {
 			time.Sleep(time.Duration(c.Skew))
 		}
 		metrics := stat.NewMetrics("c01") // owns an immortal flusher: the bubble is expected to end with a leak
-		ran := 0
+		ran := make([]int, c.K)
 		code := 0
-		h := BreakerHandler(http.MethodGet, "/c01", metrics)(http.HandlerFunc(func(w http.ResponseWriter, r *http.Request) {
-			ran++
-			if code != 0 {
-				w.WriteHeader(code)
+		handlers := make([]http.Handler, c.K)
+		methods := make([]string, c.K)
+		paths := make([]string, c.K)
+		for n := 0; n < c.K; n++ {
+			n := n
+			methods[n] = []string{http.MethodGet, http.MethodPost}[n%2]
+			paths[n] = []string{"/c01/a", "/c01/b"}[n/2]
+			handlers[n] = BreakerHandler(methods[n], paths[n], metrics)(http.HandlerFunc(func(w http.ResponseWriter, r *http.Request) {
+				ran[n]++
+				if code != 0 {
+					w.WriteHeader(code)
+				}
+				_, _ = w.Write([]byte("c01"))
+			}))
+		}
+		for i, st := range c.Steps {
+			n := st.N % c.K
+			code = st.C
+			if st.C >= 500 {
+				nfail[n]++
 			}
-			_, _ = w.Write([]byte("c01"))
-		}))
-		for i, sc := range c.Codes {
-			code = sc
-			if sc >= 500 {
-				nfail++
-			}
-			before := ran
+			calls[n]++
+			before := ran[n]
 			rec := httptest.NewRecorder()
-			h.ServeHTTP(rec, httptest.NewRequest(http.MethodGet, "http://localhost/c01", http.NoBody))
-			what := fmt.Sprintf("request %d (handler status %d)", i, sc)
-			if ran == before {
-				rejected++
+			handlers[n].ServeHTTP(rec, httptest.NewRequest(methods[n], "http://localhost"+paths[n], http.NoBody))
+			what := fmt.Sprintf("step %d (%s %s, request %d of that route, handler status %d)", i, methods[n], paths[n], calls[n], st.C)
+			if ran[n] == before {
+				rejected[n]++
 				if rec.Code != http.StatusServiceUnavailable {
 					fail = fmt.Sprintf("%s: handler not run but the response status is %d, want 503", what, rec.Code)
 					return
 				}
-				if c.Benign {
-					fail = fmt.Sprintf("%s rejected by the breaker after only statuses below 500 and %d (<=5) failures", what, nfail)
+				if c.Kind[n] == 0 {
+					fail = fmt.Sprintf("%s rejected by the breaker although this route answered only statuses below 500 and %d (<=5) failures; kinds of all routes: %v", what, nfail[n], c.Kind)
 					return
 				}
 				continue
 			}
-			if ran != before+1 {
-				fail = fmt.Sprintf("%s: handler ran %d times", what, ran-before)
+			if ran[n] != before+1 {
+				fail = fmt.Sprintf("%s: handler ran %d times", what, ran[n]-before)
 				return
 			}
-			want := sc
+			want := st.C
 			if want == 0 {
 				want = 200
 			}
@@ -107,29 +172,36 @@ func c01InterpHTTP(t *testing.T, c c01HCase) (v kit.Verdict) {
 				return
 			}
 		}
-		if !c.Benign && rejected == 0 {
-			fail = fmt.Sprintf("%d consecutive responses with status %d were all admitted: the breaker never cut off", len(c.Codes), c.Codes[0])
-		}
-	})
-	v.NonTrivial = true
-	if c.Benign {
-		classes["benign-run"] = true
-		for _, sc := range c.Codes {
-			switch {
-			case sc == 499:
-				classes["status-499"] = true
-			case sc == 0:
-				classes["no-explicit-status"] = true
-			case sc >= 500:
-				classes["benign-run-with<=5-failures"] = true
+		for n := 0; n < c.K; n++ {
+			if c.Kind[n] == 1 && rejected[n] == 0 {
+				fail = fmt.Sprintf("%s %s: %d consecutive responses with a status >= 500 were all admitted: the breaker never cut off", methods[n], paths[n], calls[n])
+				return
 			}
 		}
-	} else {
-		classes["failing-run"] = true
-		if c.Codes[0] == 500 {
-			classes["failing-run-status-500"] = true
+	})
+	hasB, hasF := false, false
+	for _, kd := range c.Kind {
+		classes[[]string{"benign-route", "failing-route", "mixed-route"}[kd]] = true
+		hasB = hasB || kd == 0
+		hasF = hasF || kd == 1
+	}
+	for _, st := range c.Steps {
+		kd := c.Kind[st.N%c.K]
+		switch {
+		case kd == 0 && st.C == 499:
+			classes["benign-status-499"] = true
+		case kd == 0 && st.C == 0:
+			classes["benign-no-explicit-status"] = true
+		case kd == 0 && st.C >= 500:
+			classes["benign-route-with<=5-failures"] = true
+		case kd == 1 && st.C == 500:
+			classes["failing-route-status-500"] = true
 		}
 	}
+	if c.K > 1 {
+		classes["several-routes"] = true
+	}
+	v.NonTrivial = hasB || hasF
 	for k := range classes {
 		v.Classes = append(v.Classes, k)
 	}
@@ -143,6 +215,6 @@ func c01InterpHTTP(t *testing.T, c c01HCase) (v kit.Verdict) {
 }
 
 func TestVerif_C01_http_run(t *testing.T) {
-	kit.Run(t, "C01", "http-run", kit.Opts{Quick: 300, Thorough: 6400}, c01GenHTTP,
+	kit.Run(t, "C01", "http-run", kit.Opts{Quick: 200, Thorough: 4800}, c01GenHTTP,
 		func(c c01HCase) kit.Verdict { return c01InterpHTTP(t, c) })
 }
